@@ -532,7 +532,7 @@ func (e *Explorer) assert(c *Term, tag string) {
 }
 
 func (e *Explorer) note(s string) {
-	if len(e.Notes) < 40 {
+	if len(e.Notes) < 20000 {
 		e.Notes = append(e.Notes, s)
 	}
 }
